@@ -85,11 +85,15 @@ pub fn k14_owner_and_route<S: Src, const N: usize>(s: &mut S) {
                 owners += 1;
                 owner_pos = p;
             }
+            #[cfg(kani)]
             let nodes: Vec<ClusterNode> = m
                 .get_all_nodes()
                 .into_iter()
                 .filter(|e| e.status == NodeStatus::Valid)
                 .collect();
+            // native replay: the list route_addr really uses (NodeManage::get_all_valid_nodes through the actor)
+            #[cfg(not(kani))]
+            let nodes: Vec<ClusterNode> = valid_nodes_via_actor(build_view::<N>(&valid, p));
             if !nodes.is_empty() {
                 let index = h % nodes.len();
                 let target = nodes.get(index).unwrap();
@@ -138,6 +142,16 @@ pub fn k14_n5<S: Src>(s: &mut S) {
     k14_owner_and_route::<S, 5>(s)
 }
 
+/// the node list NodeManage::route_addr indexes: the real async NodeManage::get_all_valid_nodes on a started InnerNodeManage actor
+#[cfg(not(kani))]
+fn valid_nodes_via_actor(m: InnerNodeManage) -> Vec<ClusterNode> {
+    use actix::Actor;
+    actix_rt::System::new().block_on(async move {
+        let addr = m.start();
+        NodeManage::new(addr).get_all_valid_nodes().await.unwrap_or_default()
+    })
+}
+
 /// translator validation for engine S: print what the real code answers for one concrete view
 /// (vals: n, live[0..n], hash % 60); compared by rs2smt/c14.py with its encoding of the same functions
 #[cfg(not(kani))]
@@ -170,7 +184,7 @@ pub fn k14_dump(s: &mut RSrc) {
         }
         m.update_nodes_index();
         let owns = m.get_current_process_range().is_range(h);
-        let nodes: Vec<ClusterNode> = m.get_all_nodes().into_iter().filter(|e| e.status == NodeStatus::Valid).collect();
+        let nodes: Vec<ClusterNode> = valid_nodes_via_actor(m);
         let tgt = if nodes.is_empty() { 0 } else { nodes[h % nodes.len()].id };
         println!("VERIF-OUT view={} owns={} route={}", IDS[p], owns, tgt);
     }
